@@ -263,6 +263,11 @@ theorem segments_inv {t t' : Tcb} {out : List Segment}
            · cases hs
            · exact segmentize_inv _ _ _ h0 hs)
         | (cases hs; exact h0)
+    -- nobody closed: no FIN is pending, `finIfPending` is the identity
+    rw [h.st.finPending] at e
+    unfold finIfPending at e
+    rw [if_neg Bool.false_ne_true] at e
+    dsimp only at e
     simp only [Except.ok.injEq, Prod.mk.injEq] at e
     obtain ⟨e1, e2⟩ := e
     have i2 : TInv port issX issY subX subY delX
@@ -360,7 +365,7 @@ theorem listen_inv {g : Segment} {iss : Seq} {mtu : U16} {res : Option ListenRes
         have base : TInv g.hdr.dstPort iss issY [] subY []
             ({ localPort := g.hdr.dstPort, remotePort := g.hdr.srcPort, mtu, initiation := .Listen,
                state := .SynReceived,
-               snd := { iss := iss, una := iss, nxt := iss + 1, wnd := g.hdr.wnd, wl1 := g.hdr.seq, wl2 := g.hdr.ack },
+               snd := { iss := iss, una := iss, nxt := iss + 1, wnd := g.hdr.wnd, wl1 := g.hdr.seq, wl2 := iss },
                rcv := { irs := g.hdr.seq, nxt := g.hdr.seq + 1 } } : Tcb) := by
           refine ⟨rfl, trivial, rfl, ⟨[], rfl, ?_⟩, (fun x hx => by cases hx), (fun x hx => by cases hx),
             (fun x hx => by cases hx), (fun h0 => by cases h0), fun _ => ⟨?_, List.nil_prefix⟩, fun _ => hseq⟩
